@@ -227,4 +227,12 @@ def handle (bt : Built) (q : Request) : Response :=
                             (if q.acrHeaders = [] then none else some q.acrHeaders)
                           else some (join bt.cfg.allowHeaders (b ", ")) }
 
+/-- The middleware over a history of requests on one app (one connection, one reused request
+    context): the handler keeps nothing between requests, each is answered on its own. -/
+def serve (bt : Built) (history : List Request) : List Response := history.map (handle bt)
+
+/-- the reply to `q` after the requests `pre` were served by the same handler -/
+def replyAfter (bt : Built) (pre : List Request) (q : Request) : Response :=
+  (serve bt (pre ++ [q])).getLastD (handle bt q)
+
 end C19
